@@ -48,6 +48,14 @@ def _basic(I, cls, blk, items):
     it = list(iter(blk))
     I.prove(f"C18.{cls}.len_eq_iter_count", len(blk) == len(it) and len(it) == len(items))
     I.prove(f"C18.{cls}.iter_yields_items_in_order", all(a is b for a, b in zip(it, items)))
+    # two iterations of the same block that overlap in time are independent of each other
+    pairs = [(x, y) for x in blk for y in blk]
+    I.prove(f"C18.{cls}.len_eq_iter_count", len(pairs) == len(items) ** 2, f"nested iteration visits {len(pairs)} pairs for {len(items)} items")
+    i1, i2 = iter(blk), iter(blk)
+    alt = []
+    for _ in range(len(items)):
+        alt.append((next(i1, None), next(i2, None)))
+    I.prove(f"C18.{cls}.iter_yields_items_in_order", all(x is it_ and y is it_ for (x, y), it_ in zip(alt, items)), "two iterators advanced alternately")
 
 
 def int_case(cls, lens, window, chans=False):
